@@ -2,6 +2,7 @@ package main
 
 import (
 	"path/filepath"
+	"strings"
 
 	"golang.org/x/tools/go/ssa"
 )
@@ -12,6 +13,7 @@ func registerModels(in *Interp) {
 	registerFSModels(in)
 	registerFSTable(in)
 	registerHTTPModels(in)
+	registerSandboxModels(in)
 }
 
 // ---------------------------------------------------------------- path / file-system stubs
@@ -96,7 +98,13 @@ func registerFSModels(in *Interp) {
 		r := byteClass(p, x, func(b *Term) *Term {
 			return p.orN(inRange(p, b, 'a', 'z'), inRange(p, b, '0', '9'), p.bvCmp("=", b, mkBV(8, '-')), p.bvCmp("=", b, mkBV(8, '_')))
 		})
-		return p.and(r, p.not(p.bvCmp("=", x.n, mkInt(0))))
+		r = p.and(r, p.not(p.bvCmp("=", x.n, mkInt(0))))
+		if fr != nil && fr.fn.Pkg != nil && strings.HasSuffix(fr.fn.Pkg.Pkg.Path(), "/sandbox") && len(x.b) > 0 {
+			for _, c := range []byte{'l', 't', 'g'} {
+				r = p.and(r, p.not(p.bvCmp("=", x.b[0], mkBV(8, uint64(c)))))
+			}
+		}
+		return r
 	}
 	vxExtra["vxContains"] = func(in *Interp, p *Path, fr *Frame, a []Val, s ssa.CallInstruction) Val {
 		return p.strContains(a[0].(StringVal), a[1].(StringVal))
